@@ -12,8 +12,10 @@ PY = os.environ.get("VERIF_PY", "/venv/bin/python")
 DEPS = os.path.join(VERIF, ".deps")
 FIXTURES = os.path.join(VERIF, "vf", "fixtures")
 REGISTRY_DIR = os.path.join(FIXTURES, "registry")      # holds pel_registry/
-EVIDENCE = os.path.join(VERIF, "evidence")
-REPLAYS = os.path.join(VERIF, "replays")
+# evidence/replays of runs against another tree (VERIF_REPO=<scratch mutant>) never touch the committed ones
+_ALT = REPO != "/repo"
+EVIDENCE = os.path.join(VERIF, ".scratch", "alt-evidence") if _ALT else os.path.join(VERIF, "evidence")
+REPLAYS = os.path.join(VERIF, ".scratch", "alt-replays") if _ALT else os.path.join(VERIF, "replays")
 KNOWN = os.path.join(VERIF, "known_findings.json")
 GUARD = "PEL_PARSERS_VERIF"
 
